@@ -68,6 +68,17 @@ func (r *regexAST) String() string {
 	}
 	return strings.Join(res, "")
 }
+
+// isNonCapturing tells if the expression is the body of a `(?:...)` / `(?flags:...)` / `(?flags)` group:
+// RE2 does not number such a group, so it must not get a place in the list of label names either.
+func (r *regexAST) isNonCapturing() bool {
+	if len(r.RegexPart) == 0 {
+		return false
+	}
+	first := r.RegexPart[0].SimplePart
+	return strings.HasPrefix(first, "?") && !strings.HasPrefix(first, "?<")
+}
+
 func (r *regexAST) collectGroupNames(init []string) []string {
 	for _, p := range r.RegexPart {
 		init = p.collectGroupNames(init)
@@ -95,7 +106,9 @@ func (r *regexPart) collectGroupNames(init []string) []string {
 		return r.NamedBrackPart.collectGroupNames(init)
 	}
 	if r.BrackPart != nil {
-		init = append(init, "")
+		if !r.BrackPart.isNonCapturing() {
+			init = append(init, "")
+		}
 		return r.BrackPart.collectGroupNames(init)
 	}
 	return init
